@@ -480,9 +480,9 @@ func c16StopOrder(p *Prog, r *Report) {
 			return ok && inner.Sel.Name == field
 		}
 	}
-	cancel := find(fieldCall("cancel", ""))
-	sendW := find(fieldCall("sendWg", "Wait"))
-	runW := find(fieldCall("runWg", "Wait"))
+	cancel := find(fieldCall(poolFields.Cancel, ""))
+	sendW := find(fieldCall(poolFields.SendWg, "Wait"))
+	runW := find(fieldCall(poolFields.RunWg, "Wait"))
 	closeCh := find(func(c *ast.CallExpr) bool {
 		id, ok := c.Fun.(*ast.Ident)
 		if !ok || id.Name != "close" {
@@ -562,11 +562,11 @@ func c16Registration(p *Prog, r *Report) {
 			if ev.Kind != "call" || ev.Call == nil {
 				continue
 			}
-			if isWGf(info, ev.Call, "sendWg", "Add") && addEv == nil {
+			if isWGf(info, ev.Call, poolFields.SendWg, "Add") && addEv == nil {
 				addEv = ev
 			}
 			if sel, ok := ev.Call.Fun.(*ast.SelectorExpr); ok && sel.Sel.Name == "Err" && errEv == nil {
-				if inner, ok := ast.Unparen(sel.X).(*ast.SelectorExpr); ok && inner.Sel.Name == "ctx" {
+				if inner, ok := ast.Unparen(sel.X).(*ast.SelectorExpr); ok && inner.Sel.Name == poolFields.Ctx {
 					errEv = ev
 				}
 			}
@@ -580,10 +580,10 @@ func c16Registration(p *Prog, r *Report) {
 				if ev.Kind != "call" || ev.Call == nil {
 					continue
 				}
-				if sel, ok := ev.Call.Fun.(*ast.SelectorExpr); ok && sel.Sel.Name == "cancel" {
+				if sel, ok := ev.Call.Fun.(*ast.SelectorExpr); ok && sel.Sel.Name == poolFields.Cancel {
 					cancelHeld, cancelN = ev.Held, cancelN+1
 				}
-				if isWGf(sinfo, ev.Call, "sendWg", "Wait") {
+				if isWGf(sinfo, ev.Call, poolFields.SendWg, "Wait") {
 					waitHeld, waitN = ev.Held, waitN+1
 				}
 			}
@@ -638,7 +638,7 @@ func c16Registration(p *Prog, r *Report) {
 		}
 		deferred := false
 		for _, n := range f.Nodes {
-			if ds, ok := n.Ast.(*ast.DeferStmt); ok && isWGf(info, ds.Call, "sendWg", "Done") {
+			if ds, ok := n.Ast.(*ast.DeferStmt); ok && isWGf(info, ds.Call, poolFields.SendWg, "Done") {
 				deferred = true
 				for _, t := range blocking {
 					if !f.MustPrecede(setOf([]int{n.ID}), t) {
@@ -658,7 +658,7 @@ func c16Registration(p *Prog, r *Report) {
 		f := p.FlatOf(fi)
 		adds := f.Match(func(n *GNode) bool {
 			for _, c := range callsIn(n.Ast, false) {
-				if isWGf(info, c, "sendWg", "Add") {
+				if isWGf(info, c, poolFields.SendWg, "Add") {
 					return true
 				}
 			}
@@ -685,7 +685,7 @@ func c16Registration(p *Prog, r *Report) {
 			ast.Inspect(gb.Body, func(x ast.Node) bool {
 				if ds, ok := x.(*ast.DeferStmt); ok {
 					ast.Inspect(ds, func(y ast.Node) bool {
-						if c, ok := y.(*ast.CallExpr); ok && isWGf(info, c, "sendWg", "Done") {
+						if c, ok := y.(*ast.CallExpr); ok && isWGf(info, c, poolFields.SendWg, "Done") {
 							done = true
 						}
 						return true
@@ -696,7 +696,7 @@ func c16Registration(p *Prog, r *Report) {
 			if !done {
 				dones := lf.Match(func(n *GNode) bool {
 					for _, c := range callsIn(n.Ast, false) {
-						if isWGf(info, c, "sendWg", "Done") {
+						if isWGf(info, c, poolFields.SendWg, "Done") {
 							return true
 						}
 					}
@@ -718,7 +718,7 @@ func c16Registration(p *Prog, r *Report) {
 		f := p.FlatOf(fi)
 		adds := f.Match(func(n *GNode) bool {
 			for _, c := range callsIn(n.Ast, false) {
-				if isWGf(info, c, "runWg", "Add") {
+				if isWGf(info, c, poolFields.RunWg, "Add") {
 					return true
 				}
 			}
@@ -748,7 +748,7 @@ func c16Registration(p *Prog, r *Report) {
 		}
 		ok := false
 		if first >= 0 {
-			if ds, isD := f.Nodes[first].Ast.(*ast.DeferStmt); isD && isWGf(info, ds.Call, "runWg", "Done") {
+			if ds, isD := f.Nodes[first].Ast.(*ast.DeferStmt); isD && isWGf(info, ds.Call, poolFields.RunWg, "Done") {
 				ok = true
 			}
 		}
@@ -815,7 +815,7 @@ func c16Blocking(p *Prog, r *Report) {
 			if !ok {
 				return true
 			}
-			if sel, ok := ast.Unparen(ss.Chan).(*ast.SelectorExpr); !ok || sel.Sel.Name != "ch" {
+			if sel, ok := ast.Unparen(ss.Chan).(*ast.SelectorExpr); !ok || sel.Sel.Name != poolFields.Ch {
 				return true
 			}
 			n++
@@ -885,7 +885,7 @@ func c16Structure(p *Prog, r *Report) {
 		}
 		ast.Inspect(fi.Decl.Body, func(x ast.Node) bool {
 			if ss, ok := x.(*ast.SendStmt); ok {
-				if sel, ok := ast.Unparen(ss.Chan).(*ast.SelectorExpr); ok && sel.Sel.Name == "ch" {
+				if sel, ok := ast.Unparen(ss.Chan).(*ast.SelectorExpr); ok && sel.Sel.Name == poolFields.Ch {
 					sites = append(sites, k)
 				}
 			}
@@ -922,7 +922,7 @@ func c16Structure(p *Prog, r *Report) {
 				recv := false
 				ast.Inspect(cc.Comm, func(y ast.Node) bool {
 					if u, ok := y.(*ast.UnaryExpr); ok && u.Op == token.ARROW {
-						if sel, ok := ast.Unparen(u.X).(*ast.SelectorExpr); ok && sel.Sel.Name == "ch" {
+						if sel, ok := ast.Unparen(u.X).(*ast.SelectorExpr); ok && sel.Sel.Name == poolFields.Ch {
 							recv = true
 						}
 					}
